@@ -130,7 +130,7 @@ class PipeCore(object):
         out = self.cur[:k]
         self.cur = self.cur[k:]
         if self.log_io or over:
-            self.rec.ev('br', n=n, k=k, over=over, left=avail, timeout_ms=-1 if timeout is None else int(round(timeout * 1000)))
+            self.rec.ev('br', n=n, k=k, over=over, left=avail, flen=self.cur_len, timeout_ms=-1 if timeout is None else int(round(timeout * 1000)))
         if not self.cur and k:
             m = self.cur_meta
             self.rec.ev('rd', _payload=m.get('payload', b''), **m['pk'])
